@@ -11,6 +11,7 @@ import (
 	"os"
 	"strings"
 	"sync"
+	"syscall"
 	"testing"
 	"time"
 
@@ -134,6 +135,27 @@ func runFakeChild(spec ChildSpec) {
 				act = l[n]
 			}
 			switch act.Kind {
+			case "fault":
+				// part of the answer, then the fault
+				body := renderRaw(act.Raw, method, m.ID, m.Params) + "\n"
+				cut := act.Cut
+				if cut > len(body) {
+					cut = len(body)
+				}
+				os.Stdout.WriteString(body[:cut])
+				switch act.Then {
+				case "exit0":
+					os.Exit(0)
+				case "exit3":
+					os.Exit(3)
+				case "kill9":
+					syscall.Kill(os.Getpid(), syscall.SIGKILL)
+					time.Sleep(time.Second)
+				case "close":
+					os.Stdout.Close()
+				case "stall":
+					// nothing more for this request
+				}
 			case "exit":
 				os.Exit(act.Status)
 			case "close-stdout":
